@@ -61,17 +61,19 @@ class EncoderModel:
                 self.bytesLeft = q
         if not self.bytesLeft:
             raise Broken("Encoder: cannot bind the free-byte counter")
-        # max: first argument of the template's sizing resize
-        self.maxBytes = None
-        for f in self.methods:
-            for c in f.calls("std::vector::resize"):
-                if strip_all_casts(c.get("obj", {})).get("field") == self.template and c.get("args"):
-                    rd = reads(c["args"][0]) & set(szt)
-                    if len(rd) == 1:
-                        self.maxBytes = list(rd)[0]
-        if not self.maxBytes or self.maxBytes == self.bytesLeft:
-            raise Broken("Encoder: cannot bind the maximum frame size member")
-        self.minBytes = [q for q in szt if q not in (self.bytesLeft, self.maxBytes)][0]
+        # min / max: the members assigned from the public DataContext fields
+        self.maxBytes = self.minBytes = None
+        for q in szt:
+            for f, k, n in self.writes.get(q, []):
+                if k == "assign" and isinstance(n, dict):
+                    for x in walk(n["r"]):
+                        if x.get("k") == "member" and (x.get("rec") or "").endswith("DataContext"):
+                            if x.get("name") == "maxBytesPerMessage":
+                                self.maxBytes = q
+                            elif x.get("name") == "minBytesPerMessage":
+                                self.minBytes = q
+        if not self.maxBytes or not self.minBytes or len({self.maxBytes, self.minBytes, self.bytesLeft}) != 3:
+            raise Broken("Encoder: cannot bind the minimum / maximum frame size members")
 
         def method_with(pred, what, many=False):
             c = [f for f in self.methods if pred(f)]
@@ -81,7 +83,8 @@ class EncoderModel:
 
         self.header_writer = method_with(lambda f: any(True for _ in f.calls(PKT + "::getRawMessageHeader")), "message-header writer")
         self.template_builder = method_with(lambda f: any(strip_all_casts(c.get("obj", {})).get("field") == self.template
-                                                          for c in f.calls("std::vector::resize")), "template builder (sizes the template)")
+                                                          for c in f.calls() if (c.get("callee") or {}).get("nm") in ("resize", "assign", "reserve")),
+                                            "template builder (sizes the template)")
         self.putPacket = method_with(lambda f: f.cfg_raw and any(
             PKT + "::getPayloadLength" in called_names(fn_node) for _, fn_node in
             [(b, f.node(f.cfg.blocks[b]["cond"])) for b, _ in paths.loop_header(f) if f.cfg.blocks[b].get("cond", -1) >= 0]),
